@@ -44,43 +44,62 @@ META = {
     "ready": False,
 }
 
-# Directed programs: (name, spec).  The first ones are the minimal witnesses of the open findings (they make the
-# KNOWN-FINDING lines deterministic); the others pin behaviours that are right today.
+# Directed programs: (name, spec, pinned uniform-strategy configurations (reduction, explorer, rand-seed)).
+# Directed cases are run with strategy none for every reduction x explorer, plus the pinned configurations: they do
+# not depend on VERIF_SEED.  The first ones are the minimal witnesses of the open findings (so that the KNOWN-FINDING
+# lines are deterministic and disappear once fixed); the others pin behaviours that are right today.
+U = "uniform"
 DIRECTED = [
-    # two independent MC_random: 4 outcomes (BeFS + uniform strategy and odpor + BeFS lose two of them)
-    ("random-2x2", "actor Q0.1\nactor Q0.1\n"),
-    # receive posted, tested, then waited by its owner while the peer sends: t=0 and t=1 are both reachable
-    ("test-vs-send", "mbox 1\nactor s0.1 c0\nactor r0 t0\n"),
-    ("test-vs-send-assert", "mbox 1\nactor s0.1 c0\nactor r0 t0 E0\n"),
-    # wait_any over two communications that can both be ready: a=0 then a=1, or a=1 then a=0
-    ("waitany-2", "mbox 1\nactor s0.1 s0.2 a a\nactor r0 r0 c0 c1\n"),
-    # test_any over a set whose only activity is ready (the checker itself dies, whatever the reduction)
-    ("testany-ready", "mbox 1\nactor s0.1 y c0\nactor r0 c0\n"),
-    # lock-order inversion next to an assertion on the value of a counter: deadlock and assertion failure reachable
-    ("deadlock+assert", "mutex 2\nactor L0 L1 O1 U1 U0\nactor L1 L0 U0 U1\nactor L1 O1 E1 U1\n"),
-    # deadlock reachable only when the second actor wins the first lock
-    ("lock-order", "mutex 2\nactor L0 L1 U1 U0\nactor L1 L0 U0 U1\n"),
-    # udpor: deadlock found, exit status
-    ("recv-unmatched", "mbox 1\nactor G0\nactor Y\n"),
+    # two independent MC_random: 4 outcomes
+    ("random-2x2", "actor Q0.1\nactor Q0.1\n", [("none", "BeFS", 1), ("dpor", "BeFS", 1), ("sdpor", "BeFS", 1), ("odpor", "BeFS", 1)]),
     # three critical sections: 3! orders
-    ("mutex-3", "mutex 1\nactor L0 O0 U0\nactor L0 O0 U0\nactor L0 O0 U0\n"),
-    # 2 producers, 1 consumer on one mailbox: 2 orders
-    ("mbox-2to1", "mbox 1\nactor S0.1\nactor S0.2\nactor G0 G0\n"),
-    # semaphore hand-over and condition variable with a timed wait
-    ("sem-handover", "sem 0 1b\nactor P0 P1 o1 V1\nactor P1 o1 V1 V0\n"),
-    ("cond-signal", "mutex 1\ncond 1\nactor L0 W0.0 O0 U0\nactor L0 O0 N0 U0\n"),
-    ("barrier-2of3", "mutex 1\nbarrier 2\nactor R0 L0 O0 U0\nactor R0 L0 O0 U0\nactor L0 O0 U0\n"),
-    ("trylock", "mutex 1\nactor T0 I2 O0 U0\nactor L0 O0 U0\n"),
-    ("create-join", "mutex 1\nactor K2 L0 O0 U0 J2\nactor L0 O0 U0\ndyn L0 O0 U0\n"),
+    ("mutex-3", "mutex 1\nactor L0 O0 U0\nactor L0 O0 U0\nactor L0 O0 U0\n",
+     [("none", "BeFS", 1), ("dpor", "DFS", 1), ("sdpor", "DFS", 7), ("dpor", "BeFS", 2), ("odpor", "BeFS", 1), ("none", "DFS", 1), ("odpor", "DFS", 1)]),
+    # notify against a timed wait: signalled (w0=0) iff the waiter registered before the notification
+    ("cond-timedwait-vs-notify", "mutex 1\ncond 1\nactor N0\nactor L0 w0.0 U0\n", []),
+    ("cond-timedwait-vs-notify-assert", "mutex 1\ncond 1\nactor N0\nactor L0 w0.0 E0 U0\n", []),
+    # lost wake-up: deadlock iff the notification comes first (found first), and the other way round
+    ("cond-lost-wakeup", "mutex 1\ncond 1\nactor N0\nactor L0 W0.0 U0\n", []),
+    ("cond-lost-wakeup-rev", "mutex 1\ncond 1\nactor L0 W0.0 U0\nactor N0\n", []),
+    # receive posted then tested by its owner while the peer sends: t=0 and t=1 are both reachable
+    ("test-vs-send", "mbox 1\nactor s0.1 c0\nactor r0 t0\n", []),
+    ("test-vs-send-assert", "mbox 1\nactor s0.1 c0\nactor r0 t0 E0\n", []),
+    # wait_any over two communications that can both be ready: a=0 then a=1, or a=1 then a=0
+    ("waitany-2", "mbox 1\nactor s0.1 s0.2 a a\nactor r0 r0 c0 c1\n", []),
+    # test_any over a set whose only activity is ready (the checker itself dies, whatever the reduction)
+    ("testany-ready", "mbox 1\nactor s0.1 y c0\nactor r0 c0\n", []),
+    # lock-order inversion and an assertion on a counter: deadlock and assertion failure both reachable
+    ("deadlock+assert", "mutex 2\nactor L0 O0 L1 U1 U0\nactor L1 L0 O0 E1 U0 U1\n", []),
+    ("lock-order", "mutex 2\nactor L0 L1 U1 U0\nactor L1 L0 U0 U1\n", []),
+    # try_lock racing with a lock whose owner then fails an assertion (exploration after a soft-locked state)
+    ("trylock-assert", "mutex 1\nactor T0 I2 O0 U0 L0 O0 U0\nactor Y L0 O0 E0\n", [("sdpor", "DFS", 868)]),
+    ("recv-unmatched", "mbox 1\nactor G0\nactor Y\n", []),
+    ("mbox-2to1", "mbox 1\nactor S0.1\nactor S0.2\nactor G0 G0\n", []),
+    ("sem-handover", "sem 0 1b\nactor P0 P1 o1 V1\nactor P1 o1 V1 V0\n", []),
+    ("cond-signal", "mutex 1\ncond 1\nactor L0 W0.0 O0 U0\nactor L0 O0 N0 U0\n", []),
+    ("barrier-2of3", "mutex 1\nbarrier 2\nactor R0 L0 O0 U0\nactor R0 L0 O0 U0\nactor L0 O0 U0\n", []),
+    ("trylock", "mutex 1\nactor T0 I2 O0 U0\nactor L0 O0 U0\n", []),
+    ("create-join", "mutex 1\nactor K2 L0 O0 U0 J2\nactor L0 O0 U0\ndyn L0 O0 U0\n", []),
+    ("async-wait", "mbox 2\nactor s0.1 s1.2 c1 c0\nactor r1 r0 c0 c1\n", []),
 ]
 
 REDUCTIONS = ("dpor", "sdpor", "odpor")
 
 
-def configs(prog, rng, tier, nref):
+def configs(prog, rng, tier, nref, pinned=None):
     """The configurations of the statement for one program (the unreduced DFS exploration is the reference)."""
     nseed = 1 if tier == "quick" else 3
     out = []
+    if pinned is not None:          # directed case: strategy none everywhere + the pinned uniform configurations
+        for red in REDUCTIONS:
+            for ex in mc_red.EXPLORERS:
+                out.append(mc_red.Config(red, ex, "none", 0))
+        out.append(mc_red.Config("none", "BeFS", "none", 0))
+        for red, ex, seed in pinned:
+            out.append(mc_red.Config(red, ex, "uniform", seed))
+        if mcprog2.udpor_ok(prog):
+            out.append(mc_red.Config("udpor"))
+        return out
     for red in REDUCTIONS:
         for ex in mc_red.EXPLORERS:
             out.append(mc_red.Config(red, ex, "none", 0))
@@ -181,7 +200,7 @@ class Evaluator:
                                 "in the reference, %d only in simgrid-mc (e.g. %s %s)" % (len(lost), len(inv), ex[0], ex[1]),
                                 refcfg, case, feat, rcl, -1)
         rng = ctx.sub_rng("cfg", case["name"], case["spec"])
-        cfgs = configs(prog, rng, ctx.tier, len(ref.complete()))
+        cfgs = configs(prog, rng, ctx.tier, len(ref.complete()), case.get("pinned"))
         if only is not None:
             cfgs = [only] if only.reduction != "none" or only.explorer != "DFS" or only.strategy != "none" else []
         budget = max(90.0, 8.0 * ref.wall)
@@ -202,7 +221,7 @@ class Evaluator:
                 if cfg.reduction == "udpor" and res.rc not in (0, 2) and res.aborted and "no specialized computation" in res.log:
                     ctx.count("udpor.refused")        # documented refusal of an unsupported transition type
                     continue
-                if mc_red.cut_short(res):
+                if cfg.explorer == "BeFS" and cfg.reduction != "udpor" and mc_red.cut_short(res):
                     ctx.count("cut_short.%s" % cfg.explorer)
                     inv = res.outcomes() - ro
                     if inv:
@@ -242,7 +261,7 @@ class Evaluator:
 
 def generate(ctx):
     """The cases of one run: directed + core + comm, all derived from the seed."""
-    cases = [{"name": "d-" + n, "spec": s, "pop": "directed"} for n, s in DIRECTED]
+    cases = [{"name": "d-" + n, "spec": s, "pop": "directed", "pinned": pin} for n, s, pin in DIRECTED]
     quick = ctx.tier == "quick"
     ncore = ctx.size(quick=10, thorough=160)
     ncomm = ctx.size(quick=8, thorough=120)
@@ -260,6 +279,10 @@ def generate(ctx):
         rng = ctx.sub_rng("comm", i)
         p, _ = mcprog2.comm(rng, exts[i % len(exts)], bound)
         cases.append({"name": "comm%d" % i, "spec": mcprog2.text(p), "pop": "comm"})
+    only = os.environ.get("VERIF_C38_ONLY")        # development aid: restrict to some populations / case names
+    if only:
+        keep = set(only.split(","))
+        cases = [c for c in cases if c["pop"] in keep or c["name"] in keep]
     return cases
 
 
